@@ -50,7 +50,12 @@ def field_lists(names):
     return out
 
 
-def run_slice(mods, ref, fields, limit, serial, cn, ctx, posmode='sym', canary=False):
+def prior_pos(ref, n):
+    """An in-domain position for a slice taken before the judged one (off the cell centres and faces)."""
+    return ref.lo[n] + 0.3125 * (ref.hi[n] - ref.lo[n])
+
+
+def run_slice(mods, ref, fields, limit, serial, cn, ctx, posmode='sym', canary=False, prior=()):
     Mandoline = mods['amr_kitchen.mandoline.mandoline'].Mandoline
     lim = ref.nlev - 1 if limit is None else limit
     fs = SymFS()
@@ -67,9 +72,19 @@ def run_slice(mods, ref, fields, limit, serial, cn, ctx, posmode='sym', canary=F
         pos = (lo + hi) / 2
         arg = None
     what = 'Mandoline(fields=%r, limit_level=%r, serial=%r).slice(normal=%d, pos=%s)' % (fields, limit, serial, cn, 'pos' if posmode == 'sym' else 'None')
+    if prior:
+        what = 'm = Mandoline(fields=%r, limit_level=%r, serial=%r); %s; m.slice(normal=%d, pos=pos)' % (
+            fields, limit, serial, '; '.join('m.slice(normal=%d, pos=%r)' % (pn, prior_pos(ref, pn)) for pn in prior), cn)
     with patch.Patched(mods, fs), common.quiet():
         try:
-            out = Mandoline('plt', fields=list(fields), limit_level=limit, serial=serial, verbose=0).slice(normal=cn, pos=arg, fformat='return')
+            m = Mandoline('plt', fields=list(fields), limit_level=limit, serial=serial, verbose=0)
+            # a history on one retained object: earlier slices must not change what a later one returns
+            for pn in prior:
+                try:
+                    m.slice(normal=pn, pos=prior_pos(ref, pn), fformat='return')
+                except Exception:
+                    pass
+            out = m.slice(normal=cn, pos=arg, fformat='return')
             raised = None
         except Exception as e:
             raised = e
@@ -192,6 +207,37 @@ def run_case(case):
                         sig = 'C07/gap-next-to-box-face'
                     viol.setdefault(sig, {'signature': sig, 'what': obl.failed[0][0][:400], 'args': [fields, limit, serial, cn], 'pos': None, 'model': None})
 
+    # histories: one retained Mandoline object slices along other normals first
+    hist = [((2,), 0), ((1,), 0), ((0,), 1), ((0, 1), 2), ((2, 1), 0)]
+    if common.TIER == 'quick':
+        hist = hist[:3]
+    for prior, cn in hist:
+        fields, limit, serial = fl[1], None, bool(cn % 2)
+        cx_ = [d for d in range(3) if d != cn][0]
+        if ref.ncell[ref.nlev - 1][cx_] < 3 or any(ref.ncell[ref.nlev - 1][[d for d in range(3) if d != pn][0]] < 3 for pn in prior):
+            continue
+
+        def hpath(ctx, fields=fields, limit=limit, serial=serial, cn=cn, prior=prior):
+            return run_slice(mods, ref, fields, limit, serial, cn, ctx, prior=prior)
+        results, exhaustive, stats = core.explore(hpath, max_paths=600)
+        res.add_explore(results, exhaustive, stats)
+        npaths += stats['paths']
+        for ctx, obl in results:
+            res.add_obl(obl)
+            if obl.failed and not ctx.flags:
+                msg, model = obl.failed[0]
+                m = model or ctx.model()
+                posv = None
+                if m is not None:
+                    try:
+                        posv = common.Valuation(m)(core.real('pos'))
+                    except Exception:
+                        posv = None
+                sig = 'C07/history/normal%d-after-%s' % (cn, ''.join(str(x) for x in prior))
+                if sig not in viol:
+                    viol[sig] = {'signature': sig, 'what': msg[:400], 'args': [fields, limit, serial, cn], 'pos': posv, 'model': m,
+                                 'prior': [[pn, prior_pos(ref, pn)] for pn in prior]}
+
     def canary(ctx):
         return run_slice(mods, ref, [ref.fields[0]], None, True, 0, ctx, canary=True)
     cres, _, _ = core.explore(canary, max_paths=600)
@@ -224,7 +270,7 @@ def make_replay(ref, v, pid='C07'):
     val = common.Valuation(v.get('model'))
     replay_lib.materialise_ref(ref, os.path.join(d, 'plt'), val)
     data = replay_lib.concrete_data(ref, val)
-    case = {'property': pid, 'handler': 'c07', 'signature': v['signature'], 'what': v['what'], 'args': v['args'], 'pos': v['pos'],
+    case = {'property': pid, 'handler': 'c07', 'signature': v['signature'], 'what': v['what'], 'args': v['args'], 'pos': v['pos'], 'prior': v.get('prior') or [],
             'ref': {'fields': ref.fields, 'lo': ref.lo, 'hi': ref.hi, 'dx': ref.dx, 'ncell': [list(n) for n in ref.ncell],
                     'boxes': [[[list(a), list(b)] for a, b in lv] for lv in ref.boxes],
                     'data': [[replay_lib._arr_hex(a) for a in lv] for lv in data]}}
